@@ -31,7 +31,16 @@ def state_digest(sm):
     return digest(d["_current"], d["_history"])
 
 
-def tmpdir():
+def tmpdir(other_fs=False):
+    """scratch directory; other_fs=True: on a filesystem different from tempfile.gettempdir() (tmpfs /dev/shm), if there is one"""
+    if other_fs:
+        shm = "/dev/shm"
+        try:
+            if os.path.isdir(shm) and os.access(shm, os.W_OK) and os.stat(shm).st_dev != os.stat(tempfile.gettempdir()).st_dev:
+                return tempfile.mkdtemp(dir=shm, prefix="tvf-c08-")
+        except OSError:
+            pass
+        return None
     base = OUT / "tmp"
     base.mkdir(parents=True, exist_ok=True)
     return tempfile.mkdtemp(dir=str(base), prefix="c08-")
@@ -228,10 +237,13 @@ def _child_save(s, P, plan, tmp, wfd=None, bufsize=8192):
             os._exit(99)
 
 
-def crash_scenario(cfg, scen, max_points, n_warm=8, bufsize=8192):
+def crash_scenario(cfg, scen, max_points, n_warm=8, bufsize=8192, other_fs=False):
     """scen in {'fresh','overwrite'}.  Returns dict(bad, points, died, events)."""
     out = dict(bad=[], points=0, died=0, events=[], completed=0, kinds={})
-    tmp = tmpdir()
+    tmp = tmpdir(other_fs)
+    if tmp is None:
+        out["skip"] = "no second writable filesystem"
+        return out
     try:
         c = runs.full(cfg)
         np.random.seed(c["seed"])
@@ -461,6 +473,11 @@ def run():
             for bs in ((8192, 1 << 24) if ck.quick else (8192, 1 << 24, 64)):
                 ctasks.append(("tvf.checks.c08:crash_scenario", dict(cfg=dict(cc, seed=ck.subseed("crash", j)), scen=scen, max_points=maxp,
                                                                       n_warm=ck.pick(8, 14), bufsize=bs), None))
+    # the checkpoint directory on another filesystem than the system temp directory (a save that stages its temporary
+    # file elsewhere degrades to copy-into-place there)
+    for scen in ("overwrite", "fresh"):
+        ctasks.append(("tvf.checks.c08:crash_scenario", dict(cfg=dict(ccfgs[0], seed=ck.subseed("crash-fs", scen)), scen=scen, max_points=maxp,
+                                                              n_warm=ck.pick(8, 14), bufsize=8192, other_fs=True), None))
     for i, st, val in farm.run(ctasks, timeout=1500, progress="C08-crash"):
         kw = ctasks[i][1]
         if st == "timeout":
@@ -469,7 +486,12 @@ def run():
         if st != "ok":
             ck.violation("scenario-crashed", f"crash scenario: {st} {str(val)[-500:]}", dict(cfg=kw["cfg"]))
             continue
-        ck.case(dict(crash=dict(scen=kw["scen"], bufsize=kw["bufsize"], cfg=kw["cfg"], io_events=val["events"][:12])), nontrivial=val["died"] > 0, sample=(i < 2))
+        if val.get("skip"):
+            ck.note(f"crash scenario on a second filesystem skipped: {val['skip']}")
+            continue
+        if kw.get("other_fs"):
+            ck.event("kill points with the checkpoint directory on another filesystem than the temp directory", val["points"])
+        ck.case(dict(crash=dict(scen=kw["scen"], bufsize=kw["bufsize"], other_fs=bool(kw.get("other_fs")), cfg=kw["cfg"], io_events=val["events"][:12])), nontrivial=val["died"] > 0, sample=(i < 2))
         ck.event("kill points exercised", val["points"])
         ck.event("kill points at which the child really died", val["died"])
         for k, v in val["kinds"].items():
